@@ -88,6 +88,8 @@ def CarveNSem (asg : List String) : CExpr → Bool
   | .call _ _ _ _ => false
   | .stmtexpr _ _ _ => false
   | .seqexpr _ _ _ _ _ => false
+  | .callx _ _ _ _ _ => false
+  | .xmacro _ _ _ => false
 def CarveNsSem (asg : List String) : List CExpr → List CT → Bool
   | [], _ => true
   | _ :: _, [] => true
